@@ -41,6 +41,7 @@ class Collector:
         self.quick = ctx.quick
         self.rng = ctx.rng.fork("c18-collector")
         self.notes = []
+        self.drive = ctx.drive
         self.lines = []
 
     def stream(self, api, lines, family, cfg="rel", judge_api=None, describe=None, nontrivial=None,
@@ -122,6 +123,8 @@ def run(ctx):
         fam = ctx.families.setdefault("tlimit:" + api, {"cases": 0, "injected_runs": 0, "timeouts": 0, "rejected": 0,
                                                          "crashes": 0, "codes": {}})
         fam["cases"] += 1
+        if recs[i] is None and i in vlib.LAST_SKIPPED:
+            continue
         if recs[i] is None:
             rc, err = crashed.get(i, (None, ""))
             fam["crashes"] += 1
